@@ -19,7 +19,7 @@ out = ["\n----------------------------------------------------------------------
        "| seed | round | detected | by (tier) | how / why not |\n|---|---|---|---|---|"]
 for r in rows:
     out.append("| %s | %d | %s | %s | %s |" % r)
-out.append("\nA final `bin/selftest` over all %d kept changes (three lanes, quick tier unless the row says thorough) reproduced every row of this table\n(one round-1 patch had to be re-based after a later `fix:` commit touched the same line)." % len(rows))
+out.append("\nA final `bin/selftest` over the 101 changes of rounds 1 and 2 (three lanes, quick tier unless the row says thorough) reproduced every row of this table\n(one round-1 patch had to be re-based after a later `fix:` commit touched the same line); the round-3 rows (%d kept in all) were reproduced by\n`bin/selftest <seed>` per detected seed in the follow-up session." % len(rows))
 out.append("\nThe not-detected ones mark where the claims end: SIMD transforms (C04), helper constructors of the task layer and the\nconnect/send helper (C16), damaged packets in the message queue and sub-syscall interleavings of two workers on the virtual\nqueue (C05), the lapped-reader logic of the ring buffer that the recorded known findings exclude (C19), and (round 3) growing `ini_val_set`\nreplacements with names/values longer than the 1-byte thorough shapes (C17) plus whatever the rows marked `no` below say.\n")
 d = open(os.path.join(V, "DESIGN.md")).read()
 i = d.find("\n---------------------------------------------------------------------------------------------------\n\n## 12. Seeded changes")
